@@ -78,16 +78,30 @@ FirstTOD(S, lb) ==
      ELSE IF c # None THEN c * 3600 + MinOf(S[2]) * 60 + MinOf(S[1])
      ELSE None
 
-(* earliest matching wall-clock second w with wa <= w <= wb, scanning days from D (relative to the epoch) *)
-RECURSIVE ScanDays(_, _, _, _, _, _)
-ScanDays(S, rule, ed, D, wa, wb) ==
-  IF D * Day > wb THEN None
-  ELSE LET c == Civil(ed + D) IN
-       IF c.m \notin S[5] THEN ScanDays(S, rule, ed, FirstOfNextMonth(c.y, c.m) - ed, wa, wb)
-       ELSE IF ~DayOK(S, rule, c.d, DayOfWeek(ed + D)) THEN ScanDays(S, rule, ed, D + 1, wa, wb)
-       ELSE LET tod == FirstTOD(S, IF D * Day < wa THEN wa - D * Day ELSE 0) IN
-            IF tod # None /\ D * Day + tod <= wb THEN D * Day + tod
-            ELSE ScanDays(S, rule, ed, D + 1, wa, wb)
+(* earliest matching wall-clock second w with wa <= w <= wb, month by month from month number k = 12 * year + *)
+(* (month - 1).  Inside a month: the allowed days (by day of month / day of week) not before wa's day; on *)
+(* wa's own day the time of day must not be before wa, on any later day the earliest allowed time of day   *)
+(* applies.  (Recursion is by month, with plain integers as arguments: TLC does not cache the arguments of *)
+(* recursive operators, so a day-by-day recursion would cost quadratic time.)                              *)
+RECURSIVE ScanMonths(_, _, _, _, _, _)
+ScanMonths(S, rule, ed, k, wa, wb) ==
+  LET y == k \div 12
+      m == (k % 12) + 1
+      D0 == DaysFromCivil(y, m, 1) - ed       \* day number (relative to the epoch) of the first of the month
+      waDay == wa \div Day
+  IN IF D0 * Day > wb THEN None
+     ELSE IF m \notin S[5] THEN ScanMonths(S, rule, ed, k + 1, wa, wb)
+     ELSE LET days == {d \in 1..MonthLen(y, m) : /\ D0 + d - 1 >= waDay
+                                                  /\ (D0 + d - 1) * Day <= wb
+                                                  /\ DayOK(S, rule, d, DayOfWeek(ed + D0 + d - 1))}
+              onFirst == IF (waDay - D0 + 1) \in days THEN FirstTOD(S, wa - waDay * Day) ELSE None
+              later == {d \in days : D0 + d - 1 > waDay}
+          IN IF onFirst # None /\ waDay * Day + onFirst <= wb THEN waDay * Day + onFirst
+             ELSE IF later = {} THEN ScanMonths(S, rule, ed, k + 1, wa, wb)
+             ELSE LET w == (D0 + MinOf(later) - 1) * Day + FirstTOD(S, 0)
+                  IN IF w <= wb THEN w ELSE None     \* any other candidate is later still
+
+MonthNumber(ed, w) == LET c == Civil(ed + w \div Day) IN 12 * c.y + (c.m - 1)
 
 (* earliest matching instant u with lo <= u <= limit, scanning intervals from i *)
 RECURSIVE ScanZones(_, _, _, _, _, _, _)
@@ -98,17 +112,16 @@ ScanZones(S, rule, ed, zt, i, lo, limit) ==
   ELSE LET off == zt[i].off
            wa == MaxI(lo, zt[i].from) + off
            wb == MinI(limit, zt[i].to - 1) + off
-           w == ScanDays(S, rule, ed, wa \div Day, wa, wb)
+           w == ScanMonths(S, rule, ed, MonthNumber(ed, wa), wa, wb)
        IN IF w # None THEN w - off ELSE ScanZones(S, rule, ed, zt, i + 1, lo, limit)
 
 (* the earliest matching instant in (t, limit], or None *)
 NextUpTo(S, rule, ed, zt, t, limit) == IF \A f \in 1..6 : S[f] # {} THEN ScanZones(S, rule, ed, zt, 1, t + 1, limit) ELSE None
 
-(* "within five years": the same calendar date and time of day five years on (29 February -> 28 February),  *)
-(* read in UTC, minus one day of slack for the zone offset.  A match up to here must be returned; if the   *)
-(* first match is later, it or the zero time is acceptable.                                                *)
-FiveYearsOn(ed, t) == LET c == Civil(ed + t \div Day)
+(* "within five years": w is a wall-clock reading (relative seconds); the result is the same calendar date  *)
+(* and time of day five years on (29 February -> 28 February).  A match whose wall-clock reading is not    *)
+(* later than this, taken from the wall-clock reading of t, lies within five years of t.                   *)
+FiveYearsOn(ed, w) == LET c == Civil(ed + w \div Day)
                           d == MinI(c.d, MonthLen(c.y + 5, c.m))
-                      IN (DaysFromCivil(c.y + 5, c.m, d) - ed) * Day + (t % Day)
-MustFindBy(ed, t) == FiveYearsOn(ed, t) - Day
+                      IN (DaysFromCivil(c.y + 5, c.m, d) - ed) * Day + (w % Day)
 =============================================================================
